@@ -165,6 +165,7 @@ PROPS = {
 _HIST_ASSUMPTIONS = ['handlers are map bindings (HandlersBindMaps) with generated, collision-free state names; struct bindings and StatePrefix are not exercised', 'one goroutine issues the calls (schedules are the subject of C04/C06/C12/C13)', 'log level LogNothing; step logging (LogSteps) off']
 for _p in ("C01", "C02", "C03", "C05", "C07", "C08", "C11", "C14"):
     PROPS[_p] = {"level": "proof", "gen": [], "harness": True, "assumptions": list(_HIST_ASSUMPTIONS)}
+PROPS["C05"]["assumptions"][0] = "handlers are bound as maps, as structs with func fields (reflect.StructOf) and with BindOpts.StatePrefix; struct METHODS (as opposed to func fields) are not exercised; generated state names are collision-free"
 PROPS["C08"]["timeout"] = 3000
 PROPS["C08"]["assumptions"].append("a stall is 120 ms against a HandlerTimeout of 30 ms; HandlerDeadline (10 s) is never reached")
 PROPS["C11"]["assumptions"].append("64 (thorough: 256) re-executions per case stand in for 'every run'")
